@@ -2,6 +2,7 @@ package h
 
 import (
 	"bytes"
+	"encoding/json"
 	"fmt"
 	"log"
 	"os"
@@ -165,6 +166,15 @@ type Sess struct {
 	AfterInjected func(o Op)
 	Yields        int // yield points seen in the last maintenance call
 	lastDone      bool
+	// Digest accumulates a hash of every response (differential runs, C17).
+	Digest  bool
+	resHash uint64
+	nres    int
+	// Hold keeps every byte slice the database returned and re-reads it later (C14).
+	Hold    bool
+	held    []heldSlice
+	heldSeq int
+	ops     int
 }
 
 // Options builds pogreb options for a root file system.
@@ -344,6 +354,7 @@ func (s *Sess) Do(o Op) error {
 		key = o.key()
 		inv["k"], inv["buf"] = s.use(key), o.Buf
 	case "backup":
+		o.Dir = s.backupDir(o.Dir)
 		inv["dir"] = o.Dir
 	case "next":
 		inv["scan"] = o.S
@@ -382,6 +393,7 @@ func (s *Sess) Do(o Op) error {
 		}
 		return nil
 	case "backup_open":
+		o.Dir = s.backupDir(o.Dir)
 		db2, obs := OpenObserved(s.Cfg, s.Root, o.Dir, s.Universe)
 		ev := obs.Event("backup_opened")
 		ev["dir"] = o.Dir
@@ -428,6 +440,7 @@ func (s *Sess) Do(o Op) error {
 	s.R.Emit(inv)
 	ret := Ev{"e": "ret", "t": o.T, "op": o.Op}
 	var err error
+	var listing Ev
 	func() {
 		defer func() {
 			if p := recover(); p != nil {
@@ -441,11 +454,15 @@ func (s *Sess) Do(o Op) error {
 		switch o.Op {
 		case "put":
 			err = db.Put(key, val)
+			scribble(key, val)
 		case "del":
 			err = db.Delete(key)
+			scribble(key)
 		case "get":
 			var v []byte
 			v, err = db.Get(key)
+			s.hold(v)
+			scribble(key)
 			ret["nil"], ret["v"] = v == nil, Token(v)
 			if v == nil {
 				ret["v"] = ""
@@ -453,6 +470,8 @@ func (s *Sess) Do(o Op) error {
 		case "getappend":
 			var v []byte
 			v, err = db.GetAppend(key, []byte(o.Buf))
+			s.hold(v)
+			scribble(key)
 			ret["nil"], ret["v"], ret["pre"] = v == nil, "", ""
 			if v != nil {
 				n := len(o.Buf)
@@ -490,14 +509,32 @@ func (s *Sess) Do(o Op) error {
 			err = db.Sync()
 		case "compact":
 			var cr pogreb.CompactionResult
+			before := segNames(ListDir(s.Root, s.Dir))
 			cr, err = db.Compact()
 			ret["segments"], ret["records"] = cr.CompactedSegments, cr.ReclaimedRecords
+			if err == nil && s.Cfg.Strict {
+				// C15: what the directory looks like after a successful compaction
+				after := ListDir(s.Root, s.Dir)
+				have := map[string]bool{}
+				for _, n := range after {
+					have[n] = true
+				}
+				removed := []string{}
+				for _, n := range before {
+					if !have[n] {
+						removed = append(removed, n)
+					}
+				}
+				listing = Ev{"e": "listing", "files": ClassifyFiles(after), "removed": removed, "reported": cr.CompactedSegments}
+			}
 		case "next":
 			s.mu.Lock()
 			it := s.scans[o.S]
 			s.mu.Unlock()
 			var k, v []byte
 			k, v, err = it.Next()
+			s.hold(k)
+			s.hold(v)
 			ret["done"], ret["k"], ret["v"] = false, Token(k), Token(v)
 			if err == pogreb.ErrIterationDone {
 				ret["done"], err = true, nil
@@ -512,11 +549,98 @@ func (s *Sess) Do(o Op) error {
 		}
 	}()
 	ret["err"], ret["ek"] = errStr(err), ErrKind(err)
+	if s.Digest && err != nil {
+		ret["err"] = ErrKind(err) // messages of the OS file systems contain paths
+	}
 	s.mu.Lock()
 	s.EvIndex++
 	s.mu.Unlock()
 	s.R.Emit(ret)
+	if s.Digest {
+		b, _ := json.Marshal(ret)
+		s.mu.Lock()
+		s.nres++
+		s.resHash = s.resHash*1099511628211 ^ fnv64(b)
+		s.mu.Unlock()
+	}
+	if listing != nil {
+		s.R.Emit(listing)
+	}
+	if s.Hold {
+		s.ops++
+		if s.ops%7 == 0 || o.Op == "close" || o.Op == "compact" {
+			s.ObserveHeld()
+		}
+	}
 	return err
+}
+
+// backupDir places a backup next to the database directory (never relative to the working directory).
+func (s *Sess) backupDir(name string) string {
+	if filepath.IsAbs(name) || s.Cfg.FS == "crashfs" || s.Cfg.FS == "" {
+		return name
+	}
+	return filepath.Join(filepath.Dir(s.Dir), name)
+}
+
+func segNames(names []string) []string {
+	var r []string
+	for _, n := range names {
+		if filepath.Ext(n) == ".psg" {
+			r = append(r, n)
+		}
+	}
+	return r
+}
+
+type heldSlice struct {
+	id int
+	b  []byte
+}
+
+// hold remembers a slice handed out by the database.
+func (s *Sess) hold(b []byte) {
+	if !s.Hold || b == nil {
+		return
+	}
+	s.mu.Lock()
+	s.heldSeq++
+	id := s.heldSeq
+	s.held = append(s.held, heldSlice{id, b})
+	if len(s.held) > 120 {
+		s.held = s.held[len(s.held)-120:]
+	}
+	s.mu.Unlock()
+	s.R.Emit(Ev{"e": "hold", "id": id, "d": fmt.Sprintf("%d:%016x", len(b), fnv64(b))})
+}
+
+// ObserveHeld re-reads every held slice (a slice into unmapped memory faults: recorded).
+func (s *Sess) ObserveHeld() {
+	if !s.Hold {
+		return
+	}
+	s.mu.Lock()
+	hs := append([]heldSlice(nil), s.held...)
+	s.mu.Unlock()
+	for _, h := range hs {
+		func() {
+			defer func() {
+				if p := recover(); p != nil {
+					s.R.Emit(Ev{"e": "fault", "what": fmt.Sprintf("reading a slice returned earlier: %v", p)})
+				}
+			}()
+			s.R.Emit(Ev{"e": "observe", "id": h.id, "d": fmt.Sprintf("%d:%016x", len(h.b), fnv64(h.b))})
+		}()
+	}
+}
+
+// scribble overwrites buffers that were passed to the database: it must not keep references.
+func scribble(bs ...[]byte) {
+	for _, b := range bs {
+		for i := range b {
+			b[i] = 0xA5
+		}
+	}
 }
 
 // ListDir returns the base names in the database directory.
